@@ -116,12 +116,14 @@ theorem c08_body_bound (g : Cfg) (st : P) (cache data : Bytes) (acc : List Ev) (
 
 theorem c08_body_bound_init (g : Cfg) : BodyInv g (init g) := by intro _; simp [init]
 
-/-- C08: an accepted Content-Length is `[+-]?DIGIT+` (after removing trailing spaces) with a non-negative value. -/
+/-- C08: accepted Content-Length fields all carry the same value (trailing spaces aside), it is `[+-]?DIGIT+` and
+    non-negative; empty, non-numeric, negative, overflowing (≥ 2^62) and differing values are errors. -/
 theorem c08_content_length (p p' : P) (v : Bytes) (rest : List Bytes) (h : endOfHeaders p = .ok p')
-    (hte : p.te = []) (hcl : p.cl = v :: rest) (hv : v ≠ []) :
+    (hte : p.te = []) (hcl : p.cl = v :: rest) :
     clShape (trimRightSpaces v) = true ∧ 0 ≤ p'.contentLength ∧
-      parseCLValue (trimRightSpaces v) = some p'.contentLength :=
-  cl_accepted p p' v rest h hte hcl hv
+      parseCLValue (trimRightSpaces v) = some p'.contentLength ∧
+      ∀ w ∈ rest, trimRightSpaces w = trimRightSpaces v :=
+  cl_accepted p p' v rest h hte hcl
 
 /-- C08: an accepted chunk size is `HEXDIG+` with a value below 2^62 ≤ MaxInt. -/
 theorem c08_chunk_size (s : Bytes) (n : Nat) (h : parseHexSize s = some n) :
@@ -176,5 +178,8 @@ example : parseCLValue (str "+12") = some 12 ∧ parseCLValue (str "-1") = some 
 example : ∃ e, endOfHeaders { st := .headerKeyBefore, te := [str "chunked", str "chunked"] } = .error e := ⟨_, rfl⟩
 example : (endOfHeaders { st := .headerKeyBefore, te := [[]] }).isOk = false := by decide
 example : (endOfHeaders { st := .headerKeyBefore, cl := [str "-5"] }).isOk = false := by decide
+example : (endOfHeaders { st := .headerKeyBefore, cl := [[]] }).isOk = false := by decide
+example : (endOfHeaders { st := .headerKeyBefore, cl := [str "3", str "4"] }).isOk = false := by decide
+example : (endOfHeaders { st := .headerKeyBefore, cl := [str "3 ", str "3"] }).isOk = true := by decide
 
 end Http
